@@ -605,3 +605,28 @@ func selfStore(e an.Event) bool {
 	v := e.Args[1].StripConv()
 	return v.Op == "load" && len(v.Args) == 1 && v.Args[0] != nil && v.Args[0].K == e.Args[0].K
 }
+
+// stripClone sees through the idioms that make a private copy of a byte slice with the same content:
+// append([]byte(nil), x...), append([]byte{}, x...), bytes.Clone(x), slices.Clone(x).
+func stripClone(t *an.Term) *an.Term {
+	for t != nil {
+		cc, i := t.CallOf()
+		if cc == nil || i != -1 {
+			return t
+		}
+		switch cc.Aux {
+		case "builtin append":
+			if len(cc.Args) == 2 && (cc.Args[0].IsConst("nil") || cc.Args[0].Op == "make" && len(cc.Args[0].Args) > 0 && cc.Args[0].Args[0].IsConst("0")) {
+				t = cc.Args[1]
+				continue
+			}
+		case "bytes.Clone", "slices.Clone":
+			if len(cc.Args) == 1 {
+				t = cc.Args[0]
+				continue
+			}
+		}
+		return t
+	}
+	return t
+}
